@@ -546,6 +546,13 @@ func (c *Context) onRestart(message *RestartMessage, behavior vivid.Behavior) {
 
 func (c *Context) onKill(message *vivid.OnKill, behavior vivid.Behavior) {
 	if !c.zombie && !atomic.CompareAndSwapInt32(&c.state, running, killing) {
+		// 已处于停止流程中。若此前是优雅停止（子 Actor 收到的是毒杀消息，挂起中的子 Actor 无法处理它），
+		// 而现在收到的是立即停止，则把立即停止传递给仍存活的子 Actor，否则该 Actor 会永远等待被挂起的子 Actor
+		if !message.Poison && atomic.LoadInt32(&c.state) == killing {
+			for _, child := range c.Children() {
+				c.Kill(child, false, message.Reason)
+			}
+		}
 		return
 	}
 	c.doKill(message, behavior)
